@@ -319,6 +319,13 @@ func runC20(r *rt.Runner) {
 				v := genFraction(rng)
 				f.Glyphs[fmt.Sprintf("f%d", i)] = glyphForValue(v, rng.IntN(9))
 				c.Nontrivial([]byte(fmt.Sprintf("frac|%v", v)), func() string { return fmt.Sprintf("fractional delta %v", v) })
+				if i%4 == 0 {
+					// a second, different value very close to the first (equal to 6-7
+					// significant digits): each has to be encoded for itself
+					w := v + []float64{0.003, -0.003, 0.005, 0.0078, -0.01, 0.02, 3e-6, -4e-7}[rng.IntN(8)]
+					f.Glyphs[fmt.Sprintf("f%dn", i)] = glyphForValue(w, rng.IntN(9))
+					c.Nontrivial([]byte(fmt.Sprintf("frac|%v", w)), nil)
+				}
 			}
 			checkWrittenFont(c, f, stdEnc, type1.FormatNoEExec, "NoEExec")
 			c.Count("fraction sets")
@@ -390,13 +397,21 @@ func buildLongPath(rng *rand.Rand, nseg int, step func() (float64, float64)) (*t
 	g := &type1.Glyph{WidthX: 600}
 	x, y := genFraction(rng), genFraction(rng)
 	g.MoveTo(x, y)
+	cx, cy := x, y // where the current contour began
 	for s := 0; s < nseg; s++ {
 		sx, sy := step()
 		switch rng.IntN(8) {
 		case 0:
+			if rng.IntN(2) == 0 {
+				// the contour is closed explicitly, by a segment back to its first
+				// point (closepath itself does not move the current point in Type 1)
+				g.LineTo(cx, cy)
+				x, y = cx, cy
+			}
 			g.ClosePath()
 			x, y = x+sx, y+sy
 			g.MoveTo(x, y)
+			cx, cy = x, y
 		case 1, 2, 3:
 			x, y = x+sx, y+sy
 			g.LineTo(x, y)
